@@ -152,4 +152,95 @@ theorem finish_ok {P : Params} (hP : P.ans = serialAns) (hc : CodecOk P.codec) (
     · rw [fr3.gfe]; exact fr1.gfe
     · rw [fr3.inodes, enqueueBlock_w he]; exact fr1.inodes
 
+/-! ### the initial state -/
+
+theorem FrontInv.init (B : Nat) : FrontInv B ({} : Front) [] 0 := by
+  refine ⟨fun x hx => (by cases hx), rfl, fun x hx => (by cases hx), fun _ => ⟨rfl, rfl, rfl⟩, fun hb => (by cases hb)⟩
+
+theorem PInv.init (P : Params) (mb : Nat) : PInv P (create P mb) {} 0 { wr := BlockWriter.init P.pre } := by
+  refine PInv.intro ({} : FSt) rfl ?_ ?_ (fun hf => (by cases hf))
+  · constructor
+    · show 3 ≤ (if mb < 3 then 3 else mb); split <;> omega
+    · exact PoolOk.init
+    · rfl
+    · rfl
+    · exact Nat.le_refl _
+    · exact List.Perm.refl _
+    · exact List.Pairwise.nil
+    · intro x hx; cases hx
+    · rfl
+    · exact FInv.init P _
+    · rfl
+    · rfl
+    · rfl
+    · rfl
+    · exact WInv.init P
+    · rfl
+    · rfl
+    · rfl
+    · rfl
+    · exact Merge.nil
+    · exact Merge.nil
+    · intro e he; cases he
+    · intro e he; cases he
+    · exact List.nodup_nil
+    · intro _ b hb; cases hb
+    · intro _; rfl
+    · intro ci cd hcc; cases hcc
+  · rfl
+
+/-! ### the inode table does not depend on the order in which the updates were applied -/
+
+theorem effs_comm {P : Params} (hc : CodecOk P.codec) {s : Proc} {g : Ghost} {F : FSt} {W : WSt} (h : Back P s g F W)
+    (hfi : FragIdx g.done) (hall : (F.stream.take s.ioDeqSeqNum) = F.stream) :
+    ∀ x ∈ F.effs, ∀ y ∈ W.effs, EffComm x y := by
+  intro x hx y hy
+  by_cases hid : x.id = y.id
+  · rcases h.finv.effProv x hx with ⟨i, o, hxe⟩ | ⟨k, m, xi, hxe, hxi, hxfr, hxino, hxidx⟩
+    · apply effComm_of_app
+      intro a
+      rw [hxe]
+      rcases h.winv.effProv y hy with ⟨loc, hye⟩ | ⟨k', m', hye⟩ | ⟨k', v, yb, hye, _⟩
+      · rw [hye]; exact fragLoc_comm_start i o loc a
+      · rw [hye]; exact fragLoc_comm_sparse i o k' m' a
+      · rw [hye]; exact fragLoc_comm_word i o k' v a
+    · apply effComm_of_app
+      intro a
+      rw [hxe]
+      rcases h.winv.effProv y hy with ⟨loc, hye⟩ | ⟨k', m', hye⟩ | ⟨k', v, yb, hye, hyb, hyfb, hyne, hyino, hyidx⟩
+      · rw [hye]; exact sparse_comm_start k m loc a
+      · rw [hye]; exact sparse_comm_sparse k m k' m' a
+      · rw [hye]
+        have hk : k ≠ k' := by
+          rw [hall] at hyb
+          obtain ⟨xb, hxb, hxbfr, hybx⟩ := h.finv.datas yb hyb hyfb
+          have h1 : xb.data ≠ [] := by rw [hybx] at hyne; exact hyne
+          have h2 : xi.inode = xb.inode := by
+            rw [hxino, hid, ← hyino, hybx]; rfl
+          have := hfi xi hxi xb hxb hxfr hxbfr h1 h2
+          rw [hxidx] at this
+          rw [← hyidx, hybx]
+          exact this
+        exact sparse_comm_word k m k' v hk a
+  · exact effComm_of_ne x y hid
+
+theorem fe_comm {fe m : List Eff} (hfe : ∀ e ∈ fe, ∃ k, e.e = .size k) : ∀ x ∈ fe, ∀ y ∈ m, EffComm x y := by
+  intro x hx y _
+  obtain ⟨k, hk⟩ := hfe x hx
+  apply effComm_of_app
+  intro a
+  rw [hk]
+  exact size_comm k y.e a
+
+/-- the inode table at the end, in the reference's order -/
+theorem inodes_final {P : Params} (hc : CodecOk P.codec) {s : Proc} {g : Ghost} {F : FSt} {W : WSt} (h : Back P s g F W)
+    (hfi : FragIdx g.done) (hall : (F.stream.take s.ioDeqSeqNum) = F.stream) :
+    s.w.inodes = applyEffs (List.replicate s.w.inodes.length {}) (g.fe ++ F.effs ++ W.effs) := by
+  have h1 := h.mergeH.foldl_eq applyEff (fe_comm (fun e he => (h.feIds e he).2))
+  have h2 := h.mergeM.foldl_eq applyEff (effs_comm hc h hfi hall)
+  rw [h.inodes]
+  simp only [applyEffs_length, List.length_replicate]
+  show List.foldl applyEff _ g.h = List.foldl applyEff _ (g.fe ++ F.effs ++ W.effs)
+  rw [h1, List.append_assoc, List.foldl_append, h2, ← List.foldl_append]
+
 end Sqfs.BlockProc
